@@ -42,6 +42,7 @@ RECORDS = {
     **base.RECORDS,
     "EventSolution": {"fields": {"meta_data": "dict[str, str]", "post_events": "list[EventSolution]", "previous_events": "list[EventSolution]"}},
     "GraphSolution": {"fields": {"events": "dict[int, EventSolution]"}},
+    "PVEvent": {"fields": {}},
 }
 
 INV = base.INV
@@ -87,6 +88,20 @@ def typed_gs(g: GraphSolution) -> bool:
     return (all('EventType' in evs(g)[p].meta_data for p in range(len(evs(g))))
             and all(all('EventType' in x.meta_data for x in evs(g)[p].post_events) for p in range(len(evs(g))))
             and all(all('EventType' in x.meta_data for x in evs(g)[p].previous_events) for p in range(len(evs(g)))))
+
+@opaque
+def graph_of(job: list[PVEvent]) -> GraphSolution:
+    return graph_of(job)
+
+@opaque
+def with_dummy_start(g: GraphSolution) -> GraphSolution:
+    return g
+
+def GS(job: list[PVEvent], dummy: bool) -> GraphSolution:
+    return with_dummy_start(graph_of(job)) if dummy else graph_of(job)
+
+def graphs(jobs: list[list[PVEvent]], dummy: bool) -> list[GraphSolution]:
+    return [GS(j, dummy) for j in jobs]
 '''
 
 # the model a run starts from: keyed by type, one object per type, every cache coherent
@@ -206,9 +221,48 @@ CHUNKS = [
     {"name": "chunk_order_irrelevant", "forall": {"a": "list[GraphSolution]", "b": "list[GraphSolution]", "t": "str", "es": "EventSet"},
      "requires": [], "ensures": "OUT(a + b, t, es) == OUT(b + a, t, es) and IN(a + b, t, es) == IN(b + a, t, es) and TYPES(a + b, t) == TYPES(b + a, t)"},
 ]
+CONTRACTS.update({
+    # janus (external): the graph solution of a job, and the same with the job's start events hung below one dummy start event.  Objects are
+    # read as values here: the in-place update of the fresh, local graph solution is a rebinding of the caller's variable
+    "GraphSolution.from_event_list": {"trusted": True, "external": True, "static": True, "params": {"event_list": "list[PVEvent]"}, "returns": "GraphSolution",
+                                      "ensures": {"graph": "result is graph_of(event_list)", "typed": "typed_gs(result)"}},
+    "update_graph_solution_with_dummy_start_event": {"trusted": True, "mutable_params": ["graph_solution"],
+                                                     "requires": {"typed": "typed_gs(graph_solution)"},
+                                                     "ensures": {"dummy": "graph_solution is with_dummy_start(old(graph_solution))", "typed": "typed_gs(graph_solution)"}},
+    "get_graph_solutions_from_clustered_events": {
+        "generator": True, "params": {"clustered_events": "list[list[PVEvent]]"}, "returns": "list[GraphSolution]",
+        "ensures": {"one_per_job": "result == graphs(clustered_events, add_dummy_start)", "typed": "all(typed_gs(g) for g in result)"},
+        "loops": {0: {"index": "i", "seq": "js", "invariant": {
+            "src": "js == clustered_events",
+            "prefix": "yielded == graphs(js[:i], add_dummy_start)",
+            "typed": "all(typed_gs(g) for g in yielded)",
+        }}},
+    },
+    # what pv_to_puml_string calls: the jobs of a run folded into the model the run was given
+    "update_and_create_events_from_clustered_pvevents": {
+        "params": {"clustered_events": "list[list[PVEvent]]"},
+        "modifies": base.ALL,
+        "requires": {"model": "events is None or (" + WFM.format(E="events") + ")"},
+        "ensures": FOLD("result", "TYPES(graphs(clustered_events, add_dummy_start), t)", "OUT(graphs(clustered_events, add_dummy_start), k, es)",
+                        "IN(graphs(clustered_events, add_dummy_start), k, es)"),
+    },
+})
+JOBS = [
+    # the graph solutions of a + b are those of a followed by those of b: with out_splits / chunked_equals_one_shot this is the chunk statement
+    # at the level of the jobs handed to pv_to_puml_string
+    {"name": "graphs_split", "forall": {"a": "list[list[PVEvent]]", "b": "list[list[PVEvent]]", "d": "bool"},
+     "requires": [], "ensures": "graphs(a + b, d) == graphs(a, d) + graphs(b, d)"},
+    {"name": "jobs_chunked_equals_one_shot", "forall": {"a": "list[list[PVEvent]]", "b": "list[list[PVEvent]]", "d": "bool", "t": "str", "es": "EventSet"},
+     "requires": [], "ensures": "OUT(graphs(a + b, d), t, es) == (OUT(graphs(a, d), t, es) or OUT(graphs(b, d), t, es)) and "
+                                "IN(graphs(a + b, d), t, es) == (IN(graphs(a, d), t, es) or IN(graphs(b, d), t, es)) and "
+                                "TYPES(graphs(a + b, d), t) == (TYPES(graphs(a, d), t) or TYPES(graphs(b, d), t))",
+     "hints": ["graphs(a + b, d) == graphs(a, d) + graphs(b, d)"]},
+]
 ORDER = ["calculate_logic_gates", "Event._set_uid", "Event.__init__", "Event.update_event_sets", "Event.update_in_event_sets",
          "get_events_set_from_events_list", "update_and_create_events_from_graph_solution", *LEMMAS,
-         "update_and_create_events_from_graph_solutions", *CHUNKS]
+         "update_and_create_events_from_graph_solutions", *CHUNKS,
+         "GraphSolution.from_event_list", "update_graph_solution_with_dummy_start_event", "get_graph_solutions_from_clustered_events",
+         "update_and_create_events_from_clustered_pvevents", *JOBS]
 
 
 def setup(V):
@@ -219,8 +273,38 @@ def setup(V):
 MUTABLE_FIELDS = base.MUTABLE_FIELDS
 
 
+class _G:
+    """a graph solution compared by structure (natively every call of the real constructor gives a new object)"""
+    def __init__(self, gs):
+        self.events = gs.events
+
+    def sig(self):
+        return sorted((e.meta_data["EventType"], sorted(x.meta_data["EventType"] for x in e.post_events),
+                       sorted(x.meta_data["EventType"] for x in e.previous_events)) for e in self.events.values())
+
+    def __eq__(self, other):
+        return hasattr(other, "events") and self.sig() == _G(other).sig()
+
+    __hash__ = None
+
+
+def _pv(job):
+    return [{"jobId": "j", "eventId": e[0], "eventType": e[1], "timestamp": "2024-01-01T00:00:00Z", "applicationName": "app", "jobName": "wf",
+             **({"previousEventIds": list(e[2])} if e[2] else {})} for e in job]
+
+
 def native_env(nat):
-    return base.native_env(nat)
+    import importlib
+    env = base.native_env(nat)
+    di = importlib.import_module("tel2puml.pv_to_puml.data_ingestion")
+
+    def GS(job, dummy):
+        gs = di.GraphSolution.from_event_list(job)
+        if dummy:
+            di.update_graph_solution_with_dummy_start_event(gs)
+        return _G(gs)
+    env["GS"] = GS
+    return env
 
 
 class _Case(dict):
@@ -247,7 +331,13 @@ def _materialise(nat, desc):
     out.desc = desc
     graphs = [_graph(nat, job, desc.get("dummy", False)) for job in desc["jobs"]]
     model = None if desc.get("model") is None else {d["type"]: base.mk_event(nat, d) for d in desc["model"]}
-    if desc["fn"] == "list":
+    if desc["fn"] in ("jobs", "gen"):
+        out["clustered_events"] = [_pv(job) for job in desc["jobs"]]
+        out["add_dummy_start"] = desc.get("dummy", False)
+        if desc["fn"] == "jobs":
+            out["events"] = model
+        graphs = [_graph(nat, job, True) for job in desc["jobs"]] + graphs
+    elif desc["fn"] == "list":
         out["events"] = list(graphs[0].events.values())[0].post_events if graphs and graphs[0].events else []
     elif desc["fn"] == "one":
         out["graph_solution"] = graphs[0]
@@ -316,7 +406,21 @@ def _small(fn):
     return g
 
 
+def _gen_jobs(fn):
+    def g(nat, rng, n):
+        types = ["A", "B", "C", "D"]
+        for _ in range(n):
+            jobs = [_rand_job(rng, types) for _ in range(rng.randrange(0, 4))]
+            model = None
+            if rng.random() < 0.6:
+                model = [base._rand_event_desc(rng, nm) for nm in rng.sample(types + ["|||START|||"], rng.randrange(0, 4))]
+            yield _materialise(nat, {"fn": fn, "jobs": jobs, "dummy": rng.random() < 0.6, "model": model})
+    return g
+
+
 GEN = {
+    "get_graph_solutions_from_clustered_events": _gen_jobs("gen"),
+    "update_and_create_events_from_clustered_pvevents": _gen_jobs("jobs"),
     "get_events_set_from_events_list": _gen("list"),
     "update_and_create_events_from_graph_solution": _gen("one"),
     "update_and_create_events_from_graph_solutions": _gen("many"),
